@@ -43,7 +43,7 @@ std::string Op::to_text() const {
             for (int i = 0; i < 5; ++i) { char k[8]; snprintf(k, sizeof k, "sl%d", i); put(s, k, sl[i]); } break;
         case OP_SIG: put(s, "sig", sig); put(s, "src", src); s += std::string(" dt=") + dt_name[dtype]; put(s, "sigtype", sigtype);
             put(s, "rate", p[0]); put(s, "spd", p[1]); put(s, "sdf", p[2]); put(s, "eps", p[3]); put(s, "sumdf", p[4]); put(s, "adf", p[5]); put(s, "udf", p[6]);
-            putu(s, "gs", gs); put(s, "sl0", sl[0]); put(s, "sl1", sl[1]); break;
+            putu(s, "gs", gs); put(s, "sl0", sl[0]); put(s, "sl1", sl[1]); if (dtx) putu(s, "dtx", dtx); break;
         case OP_FSR: put(s, "sig", sig); s += std::string(" dt=") + dt_name[dtype]; put(s, "a", a); put(s, "d", d); put(s, "n", n); put(s, "g", g); putu(s, "gs", gs); break;
         case OP_OMIT: put(s, "sig", sig); put(s, "en", en); break;
         case OP_ANNO: put(s, "sig", sig); put(s, "a", a); put(s, "n", n); put(s, "st", st); put(s, "at", at); put(s, "grp", grp); putu(s, "y", ybits); putu(s, "gs", gs); break;
@@ -81,7 +81,7 @@ bool Op::from_text(const std::string &line) {
         else if (k == "udf") p[6] = (uint32_t) tou(e.v);
         else if (k == "st") st = (int) toi(e.v); else if (k == "at") at = (int) toi(e.v); else if (k == "grp") grp = (int) toi(e.v);
         else if (k == "y") ybits = (uint32_t) tou(e.v); else if (k == "meta") meta = (int) toi(e.v); else if (k == "en") en = (int) toi(e.v);
-        else if (k == "sigtype") sigtype = (int) toi(e.v); else if (k == "cold") cold = (int) toi(e.v);
+        else if (k == "sigtype") sigtype = (int) toi(e.v); else if (k == "cold") cold = (int) toi(e.v); else if (k == "dtx") dtx = (uint32_t) tou(e.v);
         else if (k.size() == 3 && k[0] == 's' && k[1] == 'l') sl[k[2] - '0'] = (int) toi(e.v);
     }
     return true;
